@@ -39,6 +39,7 @@ var verifExtraActions = map[string]func(r *verifRunner, a map[string]any) (strin
 var verifExtraRecord = []func(r *verifRunner, rec map[string]any){}
 
 type verifRunner struct {
+	nested     map[string]any  // the nested request of a `during` step (see step)
 	afterCrash map[string]bool // topic -> a crash happened since the last accepted publish
 	w   *verifWorld
 	b   *verifBehaviour
@@ -130,6 +131,25 @@ func (r *verifRunner) step(a map[string]any) (string, error) {
 	}
 	t := verifStr(a, "t")
 	asChan := verifBool(a, "chan")
+	if d, ok := a["during"].(map[string]any); ok && r.nested == nil {
+		// interleaving gate: when the outer request first reaches adapter method d.method, the nested request d.do is
+		// sent on ITS session and run until it is answered (no quiescence: the outer request is parked in the adapter)
+		method := verifStr(d, "method")
+		nestedAct, _ := d["do"].(map[string]any)
+		fired := false
+		r.nested = map[string]any{"act": nestedAct, "fired": false, "code": 0, "method": method}
+		memadp.PreHook = func(m string) {
+			if fired || m != method || nestedAct == nil {
+				return
+			}
+			fired = true
+			memadp.PreHook = nil
+			nid, _ := r.stepNoQuiesce(nestedAct)
+			r.nested["fired"] = true
+			r.nested["rid"] = nid
+		}
+		defer func() { memadp.PreHook = nil }()
+	}
 	id := w.id()
 	withExtra := func(m map[string]any) map[string]any {
 		if obo := verifStr(a, "obo"); obo != "" {
@@ -412,6 +432,39 @@ func (r *verifRunner) step(a map[string]any) (string, error) {
 		return f(r, a)
 	}
 	return "", fmt.Errorf("unknown action %q", act)
+}
+
+// stepNoQuiesce sends a (nested) request and waits for its reply only.
+func (r *verifRunner) stepNoQuiesce(a map[string]any) (string, error) {
+	w := r.w
+	vs := w.sess[verifStr(a, "s")]
+	if vs == nil || vs.dead {
+		return "", nil
+	}
+	t := verifStr(a, "t")
+	id := w.id()
+	var msg map[string]any
+	switch verifStr(a, "a") {
+	case "Pub":
+		msg = map[string]any{"pub": map[string]any{"id": id, "topic": w.addr(vs, t, false), "content": verifStr(a, "c")}}
+	case "Sub":
+		msg = map[string]any{"sub": map[string]any{"id": id, "topic": w.addr(vs, t, false)}}
+	case "Leave":
+		msg = map[string]any{"leave": map[string]any{"id": id, "topic": w.addr(vs, t, false), "unsub": verifBool(a, "unsub")}}
+	case "Get":
+		msg = map[string]any{"get": map[string]any{"id": id, "topic": w.addr(vs, t, false), "what": verifStr(a, "what")}}
+	default:
+		return "", nil
+	}
+	b, _ := json.Marshal(msg)
+	done := make(chan struct{})
+	go func() { defer close(done); defer func() { recover() }(); vs.s.dispatchRaw(b) }()
+	select {
+	case <-done:
+	case <-time.After(time.Second):
+	}
+	w.waitFrame(vs, id, 500*time.Millisecond)
+	return id, nil
 }
 
 // ---------------------------------------------------------------- observation
@@ -870,6 +923,27 @@ func (r *verifRunner) record(i int, a map[string]any, id string, stepErr error) 
 	if reply == nil {
 		rec["reply"] = map[string]any{"k": "none", "code": 0}
 	}
+	nested := map[string]any{"fired": false, "code": 0, "act": map[string]any{"a": "none"}, "method": ""}
+	if r.nested != nil {
+		nested["act"], nested["method"], nested["fired"] = r.nested["act"], r.nested["method"], r.nested["fired"]
+		if nid, _ := r.nested["rid"].(string); nid != "" {
+			if na, ok := r.nested["act"].(map[string]any); ok {
+				if fl, ok := frames[verifStr(na, "s")].([]map[string]any); ok {
+					for _, f := range fl {
+						if f["id"] == nid {
+							if c, ok := f["code"].(int); ok {
+								nested["code"] = c
+							} else if f["k"] == "meta" {
+								nested["code"] = 200
+							}
+						}
+					}
+				}
+			}
+		}
+		r.nested = nil
+	}
+	rec["nested"] = nested
 	for _, f := range verifExtraRecord {
 		f(r, rec)
 	}
